@@ -54,7 +54,14 @@ ModDomain(o, a) ==
        /\ InDomain(o, b)
 ModAten(o, a) == IF o = "aten::_to_copy" THEN One(CastT(TOf(a[1]), a[2].s)) ELSE Aten(o, Promoted(o, a))
 \* the export pipeline: promotion casts, then the function registered for the overload
-ModLow(o, a, devs) == IF o = "aten::_to_copy" THEN One(CastT(TOf(a[1]), a[2].s)) ELSE Low(o, Promoted(o, a), devs)
+\* deviations that only show end to end (after the exporter's optimisation passes)
+ModDevs == {"any_dim_scalar_input"}
+\* any.dim / all.dim build the axes with Reshape(dim, [-1]); once constant folding has turned them into an initializer,
+\* shape inference rejects ReduceMax/ReduceMin over axis -1/0 of a rank-0 input
+ModGuard(d, o, a) == d = "any_dim_scalar_input" /\ o \in {"aten::any.dim", "aten::all.dim"} /\ Len(a[1].shape) = 0
+ModWhy(o, a) == {d \in ModDevs \cap Deviations : ModGuard(d, o, a)}
+ModLow(o, a, devs) == IF \E d \in devs : ModGuard(d, o, a) THEN Refused
+                      ELSE IF o = "aten::_to_copy" THEN One(CastT(TOf(a[1]), a[2].s)) ELSE Low(o, Promoted(o, a), devs)
 
 -----------------------------------------------------------------------------
 (* operator instances offered at a step: references into the environment + python arguments *)
@@ -109,7 +116,7 @@ StepOK(o, a) ==
   /\ LET res == ModAten(o, a) IN
        /\ res.st = "one" /\ res.vals /\ Small(res.ts[1])
        \* only instances on which the implementation model has no deviation (those are judged at operator level)
-       /\ SameRes(ModLow(o, a, Deviations), res)
+       /\ SameRes(ModLow(o, a, Deviations \ ModDevs), res)
 
 MInit == /\ stage = "module" /\ op = "" /\ args = <<>> /\ exp = Refused /\ impl = Refused /\ ideal = Refused /\ why = {}
          /\ \E d1 \in InDts, d2 \in InDts, s1 \in InShapes, s2 \in InShapes : env = <<Mk(d1, s1, 1), Mk(d2, s2, 2)>>
@@ -139,13 +146,16 @@ PipelineOK == Len(prog) > 0 =>          \* checked in every state, so the newest
                  LET k == Len(prog) inst == Inst(prog[k].args, env) IN SameRes(ModLow(prog[k].op, inst, {}), One(env[k + 2]))
 EnvWellFormed == LET k == Len(env) IN /\ env[k].dt \in AllDts /\ ValidShape(env[k].shape) /\ Len(env[k].data) = Numel(env[k].shape)
                                       /\ \A j \in 1..Len(env[k].data) : ValOK(env[k].dt, env[k].data[j])
-EmitModules == cur = "done" => PrintT("C08MOD " \o ToJson([env |-> env, prog |-> prog]))
+Known == UNION {ModWhy(prog[k].op, Inst(prog[k].args, env)) : k \in 1..Len(prog)}
+EmitModules == cur = "done" => PrintT("C08MOD " \o ToJson([env |-> env, prog |-> prog, known |-> Known]))
 \* vacuity witnesses (must be VIOLATED): a full-length module exists; one with a promoted mixed-type step exists
 NoFullModule == cur # "done"
 NoMixedStep == ~\E k \in 1..Len(prog) : LET a == Inst(prog[k].args, env) IN
                    prog[k].op \in PromotedBin /\ a[2].k = "t" /\ a[1].s # a[2].s
 InDtsQ == {"i64", "f32", "i32", "bool"}
 InShapesQ == {<<2, 3>>, <<3>>, <<2, 1, 3>>, <<>>, <<1, 3>>, <<2, 2>>}
+InDtsD == {"i64", "f32"}
+InShapesD == {<<2, 3>>}
 InDtsS == {"i64", "f32"}
 InShapesS == {<<2, 3>>, <<3>>}
 =============================================================================
